@@ -420,14 +420,14 @@ class Unit:
             unit = 'g'
         elif unit[-1] == 'U':
             unit = 'U'
-        multiplier = 1.0
-        while value < 1:
+        prefix = ''
+        for smaller_prefix in ('m', 'u'):
+            if value >= 1:
+                break
             value *= 1e3
-            multiplier /= 1e3
+            prefix = smaller_prefix
 
-        multiplier = max(multiplier, 1e-6)
-
-        return value, {1: '', 1e-3: 'm', 1e-6: 'u'}[multiplier] + unit
+        return value, prefix + unit
 
     @staticmethod
     def calculate_concentration_ratio(solute: Substance, concentration: str, solvent: Substance) \
